@@ -8,6 +8,7 @@ import Driver.SM4
 import Driver.SM3
 import Driver.SM4Modes
 import Driver.Padding
+import Driver.Record
 open Gmsm
 
 def dispatch (toks : List String) : String :=
@@ -23,6 +24,9 @@ def dispatch (toks : List String) : String :=
     | "padwr" :: rest => Driver.padwr rest
     | "p7stream" :: rest => Driver.p7stream rest
     | "p7rt8" :: _ => "ok"
+    | "recwrite" :: rest => Driver.recwrite rest
+    | "recread" :: rest => Driver.recread rest
+    | "expad" :: rest => Driver.expad rest
     | _ => "bad-op"
 
 def main : IO Unit := Driver.run dispatch
